@@ -132,7 +132,11 @@ class Polyhedron(Shape3D):
 
     def __init__(self, vertices, faces, faces_are_convex=None):
         self._vertices = np.array(vertices, dtype=np.float64)
-        self._faces = [face for face in faces]
+        # Copy the faces: they are reordered in place by sort_faces and must not
+        # share memory with the caller's arrays.
+        self._faces = [
+            face.copy() if isinstance(face, np.ndarray) else list(face) for face in faces
+        ]
         if faces_are_convex is None:
             faces_are_convex = all(len(face) == 3 for face in faces)
         self._faces_are_convex = faces_are_convex
